@@ -1698,12 +1698,14 @@ async fn emit_event(
     buffer: &Arc<Mutex<Vec<Event>>>,
     event_log: &EventLog,
 ) {
-    #[cfg(rip_verif)]
-    rip_kernel::verif::point("sess.publish");
-    let _ = sender.send(event.clone());
+    // Publish while holding the history buffer: a subscriber subscribes first and snapshots the
+    // buffer second, so a frame sent before it subscribed must already be in its snapshot.
     #[cfg(rip_verif)]
     rip_kernel::verif::lock_point("sess.buffer", &|| buffer.try_lock().is_ok());
     let mut guard = buffer.lock().await;
+    #[cfg(rip_verif)]
+    rip_kernel::verif::point("sess.publish");
+    let _ = sender.send(event.clone());
     guard.push(event.clone());
     let _ = event_log.append(&event);
 }
